@@ -56,6 +56,10 @@ func (tx *ATTx) Rollback() error {
 // committed: database/sql regards the Tx as done after Commit, whatever it
 // answered, and puts the connection back into the pool.
 func (tx *ATTx) rollbackLocal() {
+	if !tx.tx.tranCtx.OpenGlobalTransaction() {
+		// outside a global transaction the proxy issues what the plain driver would
+		return
+	}
 	if err := tx.tx.Rollback(); err != nil {
 		log.Errorf("rollback of the local transaction after a failed phase one: %v", err)
 	}
